@@ -27,3 +27,13 @@ func GaugeSum(c prometheus.Collector) float64 {
 	}
 	return sum
 }
+
+// NoopRegistry satisfies prometheus.Registerer and prometheus.Gatherer without doing anything:
+// the Node's collectors work as usual but are not validated and indexed in a registry, which is
+// the dominant cost of centrifuge.New in harnesses that create one Node per execution.
+type NoopRegistry struct{}
+
+func (NoopRegistry) Register(prometheus.Collector) error  { return nil }
+func (NoopRegistry) MustRegister(...prometheus.Collector) {}
+func (NoopRegistry) Unregister(prometheus.Collector) bool { return true }
+func (NoopRegistry) Gather() ([]*dto.MetricFamily, error) { return nil, nil }
